@@ -14,6 +14,43 @@ fn f8_impl(state: &[u8; 128], block: &[u8; 64]) -> [u8; 128] {
     c.finalize()
 }
 
+/// F8 instantiated directly for one machine (the public generic `f8_impl::<M>`), bypassing dispatch
+fn f8_on<M: ppv_lite86::Machine>(m: M, state: &[u8; 128], block: &[u8; 64]) -> [u8; 128] {
+    use ppv_lite86::vec128_storage;
+    let mut st: [vec128_storage; 8] = core::array::from_fn(|i| {
+        let w: [u32; 4] = core::array::from_fn(|j| u32::from_le_bytes([state[16 * i + 4 * j], state[16 * i + 4 * j + 1], state[16 * i + 4 * j + 2], state[16 * i + 4 * j + 3]]));
+        vec128_storage::from(w)
+    });
+    jh_x86_64::compressor::f8_impl(m, &mut st, block.as_ptr());
+    let mut out = [0u8; 128];
+    for i in 0..8 {
+        let w: [u32; 4] = st[i].into();
+        for j in 0..4 {
+            out[16 * i + 4 * j..16 * i + 4 * j + 4].copy_from_slice(&w[j].to_le_bytes());
+        }
+    }
+    out
+}
+
+#[cfg(not(feature = "nosimd"))]
+fn f8_backends() -> Vec<(&'static str, Box<dyn Fn(&[u8; 128], &[u8; 64]) -> [u8; 128] + Sync>)> {
+    use ppv_lite86::x86_64::*;
+    use ppv_lite86::Machine;
+    unsafe {
+        vec![
+            ("sse2", Box::new(|s, b| f8_on(SSE2::instance(), s, b))),
+            ("ssse3", Box::new(|s, b| f8_on(SSSE3::instance(), s, b))),
+            ("sse41_avx", Box::new(|s, b| f8_on(SSE41::instance(), s, b))),
+            ("avx2", Box::new(|s, b| f8_on(AVX2::instance(), s, b))),
+        ]
+    }
+}
+#[cfg(feature = "nosimd")]
+fn f8_backends() -> Vec<(&'static str, Box<dyn Fn(&[u8; 128], &[u8; 64]) -> [u8; 128] + Sync>)> {
+    use ppv_lite86::Machine;
+    vec![("generic", Box::new(|s, b| f8_on(unsafe { ppv_lite86::generic::GenericMachine::instance() }, s, b)))]
+}
+
 fn lcg(seed: u64, n: usize) -> Vec<u8> {
     let mut x = seed;
     (0..n).map(|_| { x = x.wrapping_mul(6364136223846793005).wrapping_add(1442695040888963407); (x >> 56) as u8 }).collect()
@@ -66,7 +103,7 @@ pub fn f8_cases(tier: &str) -> Vec<([u8; 128], [u8; 64], String)> {
 
 pub fn run(tier: &str, config: &str) -> Report {
     let mut rep = Report::new("C06", tier, config);
-    rep.rule = "(i) F8 through the public jh_x86_64::compressor::Compressor vs the nibble-oriented vref::jh::f8 for {0, all-ones, every one-hot bit of the 1024-bit state, every one-hot bit of the 512-bit block, 64 (thorough 2048) LCG pairs; thorough adds every one-cold state bit and a state-bit x block-bit diagonal}; (ii) 4 variants x every length 0..=8*64+2 (thorough 32*64+2) of three patterns + one-hot messages of 63 and 64 bytes + 4352, 65535, 65536, 70001 bytes; distinct_nontrivial = distinct expected outputs".into();
+    rep.rule = "(i) F8 through the public jh_x86_64::compressor::Compressor vs the nibble-oriented vref::jh::f8 for {0, all-ones, every one-hot bit of the 1024-bit state, every one-hot bit of the 512-bit block, 64 (thorough 2048) LCG pairs; thorough adds every one-cold state bit and a state-bit x block-bit diagonal}; (i') the same F8 cases through f8_impl::<M> for every backend instantiated directly (SSE2, SSSE3, SSE4.1/AVX, AVX2; generic in the no_simd build); (ii) under CPUID dispatch and under every backend forced through hook H1: 4 variants x every length 0..=8*64+2 (thorough 32*64+2) of three patterns + one-hot messages of 63 and 64 bytes + 4352, 65535, 65536, 70001 bytes; distinct_nontrivial = distinct expected outputs".into();
     let t = jh_tables();
     let cases = f8_cases(tier);
     let res: Vec<(usize, Result<[u8; 128], String>, [u8; 128])> = cases
@@ -95,6 +132,40 @@ pub fn run(tier: &str, config: &str) -> Report {
         }
     }
     rep.set("f8_cases", json!(cases.len()));
-    crate::hsweep::run_c06_digests(&mut rep, tier);
+    // the same F8 cases on every backend instantiated directly
+    for (bname, f) in f8_backends() {
+        let res: Vec<(usize, Result<[u8; 128], String>, [u8; 128])> = cases.par_iter().enumerate().map(|(i, (s, m, _))| (i, guarded(|| f(s, m)), vref::jh::f8(t, s, m))).collect();
+        for (i, got, want) in res {
+            rep.evaluations += 1;
+            let (s, m, name) = &cases[i];
+            let replay = json!({"engine":"E","check":"C06","backend":bname,"f8_case":name,"state":vref::hex(s),"block":vref::hex(m)});
+            match got {
+                Err(p) => rep.violation(&format!("c06:f8:{}:panic:{}", bname, panic_class(&p)), format!("F8({}) on backend {} panicked: {}", name, bname, p), replay),
+                Ok(g) => {
+                    if g != want {
+                        rep.violation(&format!("c06:f8:{}:mismatch", bname), format!("F8({}) on backend {} got {}.. want {}..", name, bname, vref::hex(&g[..16]), vref::hex(&want[..16])), replay);
+                    }
+                }
+            }
+        }
+    }
+    // digests: CPUID dispatch, then every forced backend (hook H1) on the same domain
+    for be in crate::guts::backend_list() {
+        crate::guts::force_backend(be);
+        if be == 0 {
+            crate::hsweep::run_c06_digests(&mut rep, tier);
+        } else {
+            let before = rep.violations.len();
+            let mut sub = Report::new("C06", tier, config);
+            crate::hsweep::run_c06_digests(&mut sub, "quick");
+            rep.evaluations += sub.evaluations;
+            for (k, mut v) in sub.violations {
+                v.sig = format!("{}:forced-{}", k, crate::guts::BACKENDS[be as usize]);
+                rep.violations.insert(v.sig.clone(), v);
+            }
+            let _ = before;
+        }
+    }
+    crate::guts::force_backend(0);
     rep
 }
